@@ -846,7 +846,7 @@ pub fn run(tier: Tier, seed: u64) -> ! {
 
     let t0 = std::time::Instant::now();
     // (a)
-    let n_stores = tier.pick(1000u64, 20_000);
+    let n_stores = tier.pick(2500u64, 20_000);
     for l in par_cases(n_stores, |c| store_case(seed, c, &u, rule_dup, rule_keep)) {
         l.merge_into(&mut rep, &mut rejected);
     }
@@ -855,7 +855,7 @@ pub fn run(tier: Tier, seed: u64) -> ! {
     // (b)
     let mut probe_eng = sparql::Engine::new();
     let (caps, refused) = sparql::probe(&mut probe_eng);
-    let n_queries = tier.pick(5_000u64, 150_000);
+    let n_queries = tier.pick(12_000u64, 150_000);
     let budget = 400;
     let tol = sparql::Tol { null_as_empty: rep.findings.rule_open(sparql::RULE_NULL), distinct_noop: rep.findings.rule_open(sparql::RULE_DISTINCT) };
     let threads = std::thread::available_parallelism().map(|x| x.get()).unwrap_or(4).min(16) as u64;
